@@ -58,3 +58,9 @@ Theorem C18_init_spellings_agree : forall v r flags pos,
   scan (("--init=" ++ v) :: r) false flags pos = scan ("--init" :: v :: r) false flags pos.
 Proof. exact init_spellings_agree. Qed.
 Print Assumptions C18_init_spellings_agree.
+
+(* after a bare --, arguments are file names taken literally: `hera -- -q` names the file -q (defect D57) *)
+Theorem C18_after_dashdash_literal : forall argv flags pos,
+  scan argv true flags pos = inr (flags, (pos ++ filter (fun a => negb (String.eqb a "--")) argv)%list).
+Proof. exact after_dashdash_literal. Qed.
+Print Assumptions C18_after_dashdash_literal.
